@@ -2689,6 +2689,15 @@ func ruleCoupledFields(r *Run, id string, pkgs ...string) {
 			}
 			// g's own sites must all carry f as well (the pair is symmetric) or the pair is not one
 			n++
+			deviants := 0
+			for _, s := range ss {
+				if !s.other[g] {
+					deviants++
+				}
+			}
+			if deviants == 0 {
+				r.Check(fmt.Sprintf("%s is stored with %s everywhere", shortKey(f), shortKey(g)), true, "", "", fmt.Sprintf("%d site(s), all store both", len(ss)))
+			}
 			for _, s := range ss {
 				if s.other[g] {
 					continue
